@@ -124,6 +124,10 @@ def check_case(rec, case):
         GambaTools.pda_epsilon_closure_max_iterations = case['limit']
         for w in words:
             o = call(pa.pda_accepts_word, P, w)
+            if o.kind == 'timeout' and case['limit'] > 50 and not pd.true_eps_closure(RP, [(RP[4], ())], 60)[1]:
+                # exploding closures with a large limit: limit^2-ish work per letter by design, not a hang
+                rec.inconc('acceptance test exceeded the CPU guard on a PDA with exploding closures at a large limit')
+                break
             if not o.ok:
                 report_failure(rec, o, 'pda_accepts_word', word=w, limit=case['limit'])
                 break
@@ -176,7 +180,10 @@ def gen_cases(rec, rng, tier):
         yield {'cls': 'random_pda', 'ref': RP, 'n': n, 'limit': lim2, 'eps': '', 'requery': True}
         RPc = pdag.colliding_names(rng, RP)
         if RPc is not None:
-            yield {'cls': 'colliding_state_and_stack_names', 'ref': RPc, 'n': n, 'eps': '', 'limit': rng.choice([10, 50, 1000])}
+            yield {'cls': 'colliding_state_and_stack_names', 'ref': RPc, 'n': n, 'eps': '', 'limit': rng.choice([10, 50])}
+        RPm = pdag.multichar_stack_symbols(rng, RP)
+        if RPm is not None:
+            yield {'cls': 'multichar_stack_symbols', 'ref': RPm, 'n': n, 'eps': '', 'limit': rng.choice([10, 50])}
 
 
 def run(rec, rng, tier):
